@@ -7,6 +7,7 @@ int nondet_int(void);
 #include <stdio.h>
 int __vrt_native_failed = 0;
 void __vrt_native_checkfail(const char *msg) { printf("CHECKFAIL: %s\n", msg); __vrt_native_failed = 1; }
+void __vrt_native_stop(const char *msg) { printf("CHECKFAIL: %s\nDONE\n", msg); fflush(stdout); exit(1); }
 #define VRT_ASSERT(c, m) do { if (!(c)) { printf("CHECKFAIL: %s\n", m); fflush(stdout); exit(1); } } while (0)
 #define VRT_ASSUME(c) do { if (!(c)) { printf("ASSUME-VIOLATED\n"); fflush(stdout); exit(77); } } while (0)
 #endif
